@@ -32,7 +32,9 @@ pub struct Client {
     pub kind: u8,
     /// (size class, attach) per message; size class 0 small, k>0: k+1 packets
     pub msgs: Vec<(u8, bool)>,
-    /// 0: client completes and is gone before accept; 1: accept waits first; 2: prefix, accept, rest
+    /// 0: client completes and is gone before accept; 1: accept waits first; 2: prefix, accept, rest;
+    /// 3: the client sends more than the kernel buffers hold (it has to wait for the server), the
+    /// server accepts after a delay and drains concurrently
     pub order: u8,
     /// the server is dropped without accept (the client, if `connects`, still connects and sends)
     pub unused: bool,
@@ -45,6 +47,15 @@ pub struct Case {
     /// run the whole server side in a forked child of this (long-lived) worker process
     #[serde(default)]
     pub server_in_forked_child: bool,
+}
+
+/// `reader` = somebody is receiving concurrently, so the message may exceed the kernel buffers
+fn msg_len_for(class: u8, reader: bool) -> usize {
+    let (f1, f) = c01::capacities();
+    if reader && class > 0 {
+        return if f1 > 16384 { f1 + 40_000 } else { f1 + 60 * f };
+    }
+    msg_len(class)
 }
 
 fn msg_len(class: u8) -> usize {
@@ -60,7 +71,11 @@ fn msg_len(class: u8) -> usize {
 }
 
 pub fn client_message(server: u32, seq: u32, class: u8, attach: bool) -> Node {
-    let t = Node::Tagged { chan: server, sender: 0, seq, body: payload::make(server, 0, seq, msg_len(class), ((server as u64) << 16 | seq as u64) + 1) };
+    client_message_sized(server, seq, msg_len(class), attach)
+}
+
+pub fn client_message_sized(server: u32, seq: u32, len: usize, attach: bool) -> Node {
+    let t = Node::Tagged { chan: server, sender: 0, seq, body: payload::make(server, 0, seq, len, ((server as u64) << 16 | seq as u64) + 1) };
     if attach {
         Node::List(vec![t, Node::Shm(IpcSharedMemory::from_bytes(&payload::stream(seq as u64 + 5, 700 + seq as usize)))])
     } else {
@@ -100,13 +115,17 @@ fn check_message(n: Node, server: u32, seq: u32, attach: bool) -> Result<(), Str
 
 /// The client's behaviour (also used by the spawned helper): connect, send messages [from, to).
 pub fn client_run(name: &str, server: u32, msgs: &[(u8, bool)], from: usize, to: usize, tx: Option<IpcSender<Node>>) -> Result<IpcSender<Node>, String> {
+    client_run_sized(name, server, msgs, from, to, tx, false)
+}
+
+pub fn client_run_sized(name: &str, server: u32, msgs: &[(u8, bool)], from: usize, to: usize, tx: Option<IpcSender<Node>>, reader: bool) -> Result<IpcSender<Node>, String> {
     let tx = match tx {
         Some(t) => t,
         None => IpcSender::<Node>::connect(name.to_string()).map_err(|e| format!("connect: {}", e))?,
     };
     for k in from..to {
         let (c, a) = msgs[k];
-        tx.send(client_message(server, k as u32, c, a)).map_err(|e| format!("client send {}: {}", k, e))?;
+        tx.send(client_message_sized(server, k as u32, msg_len_for(c, reader), a)).map_err(|e| format!("client send {} ({} bytes): {}", k, msg_len_for(c, reader), e))?;
     }
     Ok(tx)
 }
@@ -135,7 +154,8 @@ pub fn helper_main(args: &[String]) -> i32 {
             (c.parse().unwrap(), a == "1")
         })
         .collect();
-    match client_run(name, server, &msgs, 0, msgs.len(), None) {
+    let reader = args.get(4).map(|s| s == "1").unwrap_or(false);
+    match client_run_sized(name, server, &msgs, 0, msgs.len(), None, reader) {
         Ok(_) => 0,
         Err(e) => {
             eprintln!("c08client: {}", e);
@@ -159,7 +179,7 @@ impl Prop for C08 {
 
     fn strategy(ctx: &Ctx) -> BoxedStrategy<Case> {
         let max_servers = if ctx.thorough { 200 } else { 24 };
-        let client = (0u8..3, proptest::collection::vec((prop_oneof![5 => Just(0u8), 1 => 1u8..4], proptest::bool::weighted(0.3)), 1..=20), 0u8..3, proptest::bool::weighted(0.15), proptest::bool::weighted(0.85)).prop_map(
+        let client = (0u8..3, proptest::collection::vec((prop_oneof![5 => Just(0u8), 1 => 1u8..4], proptest::bool::weighted(0.3)), 1..=20), 0u8..4, proptest::bool::weighted(0.15), proptest::bool::weighted(0.85)).prop_map(
             |(kind, mut msgs, order, unused, connects)| {
                 let mut multi = 0;
                 for m in msgs.iter_mut() {
@@ -206,11 +226,11 @@ enum Running {
     None,
 }
 
-fn start_client(ctx: &Ctx, kind: u8, name: String, server: u32, msgs: Vec<(u8, bool)>) -> Result<Running, Failure> {
+fn start_client(ctx: &Ctx, kind: u8, name: String, server: u32, msgs: Vec<(u8, bool)>, reader: bool) -> Result<Running, Failure> {
     let kind = if cfg!(feature = "inproc") { 0 } else { kind % 3 };
     Ok(match kind {
-        0 => Running::Thread(std::thread::spawn(move || client_run(&name, server, &msgs, 0, msgs.len(), None).map(|_| ()))),
-        1 => Running::Child(sandbox::fork_child(move |_w| match client_run(&name, server, &msgs, 0, msgs.len(), None) {
+        0 => Running::Thread(std::thread::spawn(move || client_run_sized(&name, server, &msgs, 0, msgs.len(), None, reader).map(|_| ()))),
+        1 => Running::Child(sandbox::fork_child(move |_w| match client_run_sized(&name, server, &msgs, 0, msgs.len(), None, reader) {
             Ok(_) => 0,
             Err(_) => 1,
         })),
@@ -218,7 +238,7 @@ fn start_client(ctx: &Ctx, kind: u8, name: String, server: u32, msgs: Vec<(u8, b
             let exe = std::env::current_exe().map_err(|e| Failure::inconclusive(e.to_string()))?;
             let spec: Vec<String> = msgs.iter().map(|(c, a)| format!("{}:{}", c, *a as u8)).collect();
             let child = std::process::Command::new(exe)
-                .args(["helper", "c08client", &name, &server.to_string(), &ctx.param_u64("sndbuf", 0).to_string(), &spec.join(",")])
+                .args(["helper", "c08client", &name, &server.to_string(), &ctx.param_u64("sndbuf", 0).to_string(), &spec.join(","), if reader { "1" } else { "0" }])
                 .spawn()
                 .map_err(|e| Failure::inconclusive(format!("spawn helper: {}", e)))?;
             Running::Spawned(child)
@@ -277,14 +297,15 @@ fn run(ctx: &Ctx, case: &Case) -> Result<Outcome, Failure> {
     let mut receivers: Vec<(usize, IpcReceiver<Node>, usize)> = vec![];
     let mut stats = (0u32, 0u32, 0u32); // queued-before-accept, exited-before-accept, unused
     let mut pending_clients: Vec<(usize, Running)> = vec![];
+    let mut big_readers: Vec<usize> = vec![];
     for (i, c) in case.clients.iter().enumerate() {
         let name = names[i].clone();
-        let what = format!("server {} ({} messages, order {}, client kind {})", i, c.msgs.len(), c.order % 3, c.kind % 3);
+        let what = format!("server {} ({} messages, order {}, client kind {})", i, c.msgs.len(), c.order % 4, c.kind % 3);
         if c.unused {
             stats.2 += 1;
             // dropped without accept; a client may have connected and sent before
             if c.connects {
-                let r = start_client(ctx, c.kind, name, i as u32, c.msgs.clone())?;
+                let r = start_client(ctx, c.kind, name, i as u32, c.msgs.clone(), false)?;
                 // the client may finish or fail (server dropped under it): both are fine here
                 match r {
                     Running::Thread(h) => {
@@ -304,10 +325,10 @@ fn run(ctx: &Ctx, case: &Case) -> Result<Outcome, Failure> {
         }
         let server = servers[i].take().unwrap();
         let total = c.msgs.len();
-        match c.order % 3 {
+        match c.order % 4 {
             0 => {
                 // client completes (and exits) first
-                let r = start_client(ctx, c.kind, name, i as u32, c.msgs.clone())?;
+                let r = start_client(ctx, c.kind, name, i as u32, c.msgs.clone(), false)?;
                 finish_client(r, &what)?;
                 stats.0 += (total > 1) as u32;
                 stats.1 += 1;
@@ -320,11 +341,20 @@ fn run(ctx: &Ctx, case: &Case) -> Result<Outcome, Failure> {
                 check_message(first, i as u32, 0, c.msgs[0].1).map_err(|e| Failure::new("oneshot:first-message-differs", format!("{}: {}", what, e)))?;
                 receivers.push((i, rx, 1));
             },
-            1 => {
-                // accept is already waiting
-                let acc = std::thread::spawn(move || server.accept());
-                sandbox::spin(20_000);
-                let r = start_client(ctx, c.kind, name, i as u32, c.msgs.clone())?;
+            1 | 3 => {
+                // 1: accept is already waiting; 3: the client runs ahead, accept comes late.  In both
+                // the server reads while the client sends, so messages may exceed the kernel buffers.
+                let late = c.order % 4 == 3;
+                let (acc, r) = if late {
+                    let r = start_client(ctx, c.kind, name, i as u32, c.msgs.clone(), true)?;
+                    std::thread::sleep(Duration::from_millis(2));
+                    (std::thread::spawn(move || server.accept()), r)
+                } else {
+                    let acc = std::thread::spawn(move || server.accept());
+                    sandbox::spin(20_000);
+                    (acc, start_client(ctx, c.kind, name, i as u32, c.msgs.clone(), true)?)
+                };
+                big_readers.push(i);
                 let got = sandbox::watched(move || acc.join());
                 let (rx, first) = match got {
                     Ok(Ok(Ok(x))) => x,
@@ -333,7 +363,27 @@ fn run(ctx: &Ctx, case: &Case) -> Result<Outcome, Failure> {
                     Err(h) => return Err(sandbox::hang_failure("oneshot:accept-hangs", &what, h)),
                 };
                 check_message(first, i as u32, 0, c.msgs[0].1).map_err(|e| Failure::new("oneshot:first-message-differs", format!("{}: {}", what, e)))?;
-                receivers.push((i, rx, 1));
+                // drain right away: the client may be blocked on full buffers until we do
+                let total = c.msgs.len();
+                let got = sandbox::watched(move || {
+                    let mut v = vec![];
+                    for _ in 1..total {
+                        v.push(rx.recv());
+                    }
+                    (rx, v)
+                });
+                let (rx, v) = match got {
+                    Ok(x) => x,
+                    Err(h) => return Err(sandbox::hang_failure("oneshot:receiver-hangs", &format!("{}: reading the client's remaining messages while it is still sending", what), h)),
+                };
+                for (k, m) in v.into_iter().enumerate() {
+                    let seq = k as u32 + 1;
+                    match m {
+                        Ok(nv) => check_message(nv, i as u32, seq, c.msgs[seq as usize].1).map_err(|e| Failure::new("oneshot:later-message-differs", format!("{}: {}", what, e)))?,
+                        Err(e) => fail!("oneshot:later-message-lost", "{}: message {} of {} did not arrive: {:?}", what, seq, total, e),
+                    }
+                }
+                receivers.push((i, rx, total));
                 pending_clients.push((i, r));
             },
             _ => {
@@ -395,7 +445,7 @@ fn run(ctx: &Ctx, case: &Case) -> Result<Outcome, Failure> {
         let d = fdsnap::diff(&snap0, &end);
         ensure!(end.fds.len() == snap0.fds.len() && end.tmp == snap0.tmp, "oneshot:descriptors-left-behind", "after everything was dropped: {}", d);
     }
-    let nt = stats.0 > 0 || stats.1 > 0 || n >= 2;
+    let nt = stats.0 > 0 || stats.1 > 0 || n >= 2 || !big_readers.is_empty();
     let class = format!(
         "{}{}{}{}",
         match n {
@@ -407,6 +457,6 @@ fn run(ctx: &Ctx, case: &Case) -> Result<Outcome, Failure> {
         if stats.0 > 0 { "+queued-before-accept" } else { "" },
         if stats.1 > 0 { "+client-gone-before-accept" } else { "" },
         if stats.2 > 0 { "+dropped-unused" } else { "" }
-    );
+    ) + if big_readers.is_empty() { "" } else { "+messages-beyond-the-buffers" };
     Ok(Outcome::new(nt, class).with("servers", n as u64))
 }
